@@ -2,6 +2,7 @@ package main
 
 import (
 	"fmt"
+	"go/constant"
 	"go/token"
 	"go/types"
 	"os"
@@ -225,4 +226,19 @@ func Closures(f *ssa.Function) []*ssa.Function {
 		out = append(out, Closures(a)...)
 	}
 	return out
+}
+
+// pkgIntConst: value of an integer constant of a jiva package (by short package path).
+func (P *Prog) pkgIntConst(pkgShort, name string) (int64, bool) {
+	for _, p := range P.SSA.AllPackages() {
+		if p.Pkg == nil || short(p.Pkg.Path()) != pkgShort {
+			continue
+		}
+		if c, ok := p.Pkg.Scope().Lookup(name).(*types.Const); ok {
+			if v, ok := constant.Int64Val(constant.ToInt(c.Val())); ok {
+				return v, true
+			}
+		}
+	}
+	return 0, false
 }
